@@ -111,6 +111,20 @@ Definition abs (pfx : bytes) (st : kvstate) : smap :=
            | None => m
            end) ∅ st.
 
+(* two calls that differ at most in WHICH BeforeChange listener vetoes (hence also in how many
+   listeners are registered: none, one, several), but agree on whether one does *)
+Definition env_sim (e e' : env) : Prop :=
+  e_wrongtype e = e_wrongtype e' /\ e_veto e = e_veto e' /\ e_newid e = e_newid e' /\ e_unenc e = e_unenc e'.
+Definition op_sim (o o' : op) : Prop :=
+  match o, o' with
+  | OCreate i v e, OCreate i' v' e' => i = i' /\ v = v' /\ env_sim e e'
+  | OUpdate i v e, OUpdate i' v' e' => i = i' /\ v = v' /\ env_sim e e'
+  | ODelete i e, ODelete i' e' => i = i' /\ env_sim e e'
+  | OValue i, OValue i' => i = i'
+  | OExists i, OExists i' => i = i'
+  | _, _ => False
+  end.
+
 (* classification of results *)
 Definition is_failure (r : result) : bool :=
   match r with ENotFound | EDuplicate | EMissingID | EType | EVeto | RPanic | EEncode | EOther => true | _ => false end.
